@@ -80,7 +80,7 @@ def run(run):
         b = prog.method("bounds", r"cell_buffer::CellBuffer$")
         if b:
             calls = [Program.callee_name(t) for _, t in prog.calls(b)]
-            if any(re.search(r"BTreeMap<.*>::iter$|BTreeMap::<K, V, A>::iter$|::iter$", c) for c in calls):
+            if any(re.search(r"BTreeMap<.*>::(iter|keys|range)$|BTreeMap::<K, V, A>::(iter|keys|range)$|::iter$", c) for c in calls):
                 run.ok("C17.W2", "bounds() is computed from the occupied cells", where(prog.bodies[b]))
             else:
                 run.bad("C17.W2", "bounds-source", where(prog.bodies[b]), "bounds() does not iterate the cell map")
